@@ -3,7 +3,7 @@ From Coq Require Import ZArith QArith Qreals List Reals Bool.
 From Coquelicot Require Import Complex Hierarchy Derive.
 From PyqspV Require Import Base.Ops Base.IntervalZ Model.LPolyM Model.LAlgM Model.QInst Model.ResponseM Model.SymQspM Model.Checkers
   Theory.RingK Theory.LPolyT Theory.LAlgT Theory.RelT Theory.CplxT Theory.RespT Theory.QC Theory.CertT Theory.C01T Theory.C06T
-  Theory.CornerT Theory.SymQspT Theory.SymCertT Theory.DualT Theory.JacT Theory.AccHiT Theory.ChebDblT Theory.FftT Theory.SupMonoT Theory.IntervalT Model.Jac3M Theory.Jac3T.
+  Theory.CornerT Theory.SymQspT Theory.SymCertT Theory.DualT Theory.JacT Theory.AccHiT Theory.ChebDblT Theory.FftT Theory.SupMonoT Theory.IntervalT Model.Jac3M Theory.Jac3T Theory.C01T.
 Import ListNotations.
 
 Section Layout.
@@ -112,3 +112,11 @@ Theorem C12_components_certificate odd red a vals ds : jac3_dists odd red a vals
   Forall2 (fun d yv => (Rabs (fst yv - Q2R (snd yv)) * sc <= IZR d)%R) ds (combine (jac3R odd (map Q2R red) (Q2R a)) vals).
 Proof. exact (jac3_dists_sound odd red a vals ds). Qed.
 Print Assumptions C12_components_certificate.
+
+(* (4) in the protocol's own terms: rational reduced phases r0 :: rt, the model's full-phase layout, the Wx product of C01/C13 —
+   the value entry of gen_poly_jacobian_components(cos theta) is Im <0|U(cos theta)|0> *)
+Theorem C12_components_value_is_protocol_response odd r0 rt phi0 rest theta : (0 <= theta <= PI)%R ->
+  sym_full_q odd (r0 :: rt) = Some (phi0 :: rest) ->
+  last (jac3R odd (map Q2R (r0 :: rt)) (cos theta)) 0%R = snd (m00 (Ux_at phi0 rest theta)).
+Proof. exact (jac3_value_is_protocol_response odd r0 rt phi0 rest theta). Qed.
+Print Assumptions C12_components_value_is_protocol_response.
